@@ -1103,6 +1103,16 @@ func c19Gen(r *Rand, tier string, emit func(op any)) {
 	for _, s := range c19NamePool {
 		emit(map[string]any{"k": "reg", "what": "sink", "names": []string{hx([]byte(s))}, "probes": []string{}})
 	}
+	// exhaustive over single bytes: every byte value after, before and between token letters (the scheme grammar is
+	// decided per byte; '~' and '^' are the token placeholders themselves)
+	for b := 0; b < 256; b++ {
+		if b == '~' || b == '^' {
+			continue
+		}
+		for _, s := range []string{"~" + string([]byte{byte(b)}), string([]byte{byte(b)}) + "~", "~" + string([]byte{byte(b)}) + "x"} {
+			emit(map[string]any{"k": "reg", "what": "sink", "names": []string{hx([]byte(s))}, "probes": []string{}})
+		}
+	}
 	n = 1000
 	if thorough {
 		n = 20000
